@@ -100,15 +100,27 @@ class Run:
         return part
 
     def pmap(self, fn, items, procs=None):
-        """run fn(part, item) for every item in worker processes (fork); merge in order."""
+        """run fn(part, item) for every item in worker processes; merge in order.
+        Workers are *spawned* (not forked): numba's threading layers are not fork-safe and a
+        worker that dies would otherwise be silently replaced."""
         import multiprocessing as mp
+        from concurrent.futures import ProcessPoolExecutor
+        from concurrent.futures.process import BrokenProcessPool
         items = list(items)
         procs = procs or min(int(os.environ.get("SYMX_PROCS", "14")), max(1, len(items)))
         if procs <= 1 or len(items) <= 1:
             parts = [_work((fn, it)) for it in items]
         else:
-            with mp.get_context("fork").Pool(procs) as pool:
-                parts = pool.map(_work, [(fn, it) for it in items], chunksize=1)
+            parts = []
+            with ProcessPoolExecutor(max_workers=procs, mp_context=mp.get_context("spawn")) as ex:
+                futs = [ex.submit(_work, (fn, it)) for it in items]
+                for it, f in zip(items, futs):
+                    try:
+                        parts.append(f.result())
+                    except BrokenProcessPool as e:
+                        p = Part()
+                        p.inconcl.append(f"worker process died on {it!r}: {e}")
+                        parts.append(p)
         for p in parts:
             self.merge(p)
         return parts
